@@ -348,8 +348,9 @@ class Call:
 
     def eval_new_data_offset(self, data_mask):
         if self._intermediate_data.kind == "constant":
-            # Return value passed as the argument
-            result = np.ones(len(data_mask.index)) * self.call.args[0].value
+            # Return the constant the argument evaluated to: the argument is not always a literal,
+            # e.g. 'offset(-3)', 'offset(np.log(10))' or a number in the environment
+            result = np.ones(len(data_mask.index)) * self._intermediate_data.x
         else:
             # This works both for LazyVariable (offset(x)) and LazyCall (offset(np.log(x)))
             offset = self.call.eval(data_mask, self.env)  # returns instance of Offset
@@ -360,13 +361,17 @@ class Call:
         return result
 
     def eval_new_data_proportion(self, data_mask):
-        if self._intermediate_data.trials_type == "constant":
-            # Return value passed in the second component
-            result = np.ones(len(data_mask.index)) * self.call.args[1].value
+        # The number of trials is the second argument, given by position or by keyword
+        if len(self.call.args) > 1:
+            trials = self.call.args[1]
         else:
-            # Extract name of the second component
-            name = self.call.args[1].name
-            values = data_mask[name]
+            trials = self.call.kwargs["trials"]
+        # It is not always a literal or a column name, e.g. 'prop(y, n + 1)' or a number in the
+        # environment, so it is evaluated again with the new data
+        values = trials.eval(data_mask, self.env)
+        if self._intermediate_data.trials_type == "constant":
+            result = np.ones(len(data_mask.index)) * values
+        else:
             if isinstance(values, pd.Series):
                 values = values.values
             result = values
